@@ -22,6 +22,7 @@ FUNS = {
     7: ("xorf", "def xorf(a: bool, b: bool) -> bool:\n    return a ^ b"),
     8: ("guard", "def guard(a: bool, b: bool, c: bool) -> bool:\n    return (not a) and (b or c)"),
     9: ("gt", "def gt(a: Qint[2], b: Qint[2]) -> bool:\n    return a > b"),
+    10: ("sh", "def sh(a: bool, b: bool, c: bool) -> Tuple[bool, bool]:\n    return ((a and b) or c, (a and b) ^ c)"),
 }
 HEADER = "from qlasskit import qlassf, Qint\nfrom typing import Tuple\n\n"
 
